@@ -6,7 +6,8 @@
 From Coq Require Import List Bool String NArith Arith.
 Import ListNotations.
 Require Import EmbossV.Scope.Model EmbossV.Scope.Spec EmbossV.Scope.ProofsSearch EmbossV.Scope.ProofsObjects
-        EmbossV.Scope.ProofsMembers EmbossV.Scope.ProofsSites EmbossV.Scope.ProofsTable EmbossV.Scope.Witness.
+        EmbossV.Scope.ProofsMembers EmbossV.Scope.ProofsSites EmbossV.Scope.ProofsTable EmbossV.Scope.ProofsPass
+        EmbossV.Scope.Witness.
 Open Scope string_scope.
 Open Scope list_scope.
 
@@ -67,6 +68,33 @@ Proof. exact resolve_missing_lem. Qed.
 Theorem dotted_tail_iff : forall tbl names st tgt,
   tail_walk tbl st names = TOk tgt <-> tail_rel tbl st (map fst names) tgt.
 Proof. exact tail_walk_ok_iff. Qed.
+
+(* ------------------------------------------------------------------------- *)
+(* the pass as a whole (resolve_symbols)                                      *)
+
+(* the shared error list stays empty iff every reference, taken alone, resolves without error;
+   the canonical names stored are then exactly those results *)
+Theorem pass_accepts_iff_each_reference_resolves : forall tbl mods l cs es,
+  resolve_refs tbl mods false l = Some (cs, es) ->
+  (es = [] <-> Forall2 (fun rs c => exists cn, c = Some cn /\ resolve_ref tbl mods false rs = Some (Some cn, [])) l cs).
+Proof. exact resolve_refs_accepted_iff. Qed.
+
+(* an accepted IR: no scope holds a name twice, no import alias repeats, and every type /
+   constant reference and every field-reference head is bound to the name that the reference
+   alone resolves to (which resolve_unique identifies with the designated definition) *)
+Theorem accepted_module_bound_as_designated : forall i a b,
+  run_pass1 i = Resolved1 a b ->
+  no_duplicate_errors (in_mods i)
+  /\ flat_map module_import_errors (in_mods i) = []
+  /\ Forall2 (fun rs cn => resolve_ref (table_of (in_mods i)) (in_mods i) false rs = Some (Some cn, []))
+             (in_refsA i ++ map head_refsite (in_frs i)) (a ++ b).
+Proof. exact accepted_module_lem. Qed.
+Print Assumptions accepted_module_bound_as_designated.
+
+(* a name defined twice in one scope is rejected, never resolved by precedence *)
+Theorem duplicate_definition_rejected : forall i,
+  ~ no_duplicate_errors (in_mods i) -> exists p es, run_pass1 i = Rejected1 p es /\ es <> [].
+Proof. exact duplicate_rejected_lem. Qed.
 
 (* ------------------------------------------------------------------------- *)
 (* no_precedence                                                              *)
